@@ -10,7 +10,7 @@ Definition pinned_fingerprints : list (string * string) :=
   [("field_BH_dipole.dipole_Hfield", "2210c24c91b68fca58ff2d8c6b26e99c");
   ("field_BH_dipole.BHJM_dipole", "2bd0b5d1d3aa31ee6837af1a3b18a7c0");
   ("field_BH_sphere.BHJM_magnet_sphere", "886483d9939ea3c1c16c99b931e738a2");
-  ("field_BH_polyline.current_polyline_Hfield", "162eb68b1c5c14ec5ca5b3d57e315de0");
+  ("field_BH_polyline.current_polyline_Hfield", "4bce1a6ef5c965dfb8fbfd90959214ae");
   ("field_BH_polyline.BHJM_current_polyline", "f60c6a7a0a89dee787fffae75eae58e8");
   ("field_BH_circle.BHJM_circle", "7e22ab16a317fae3ca58f2fb1b3742e7");
   ("field_wrap_BH.getBH_level1", "339d706bf3e8e6db6618ebd20dfd5673");
